@@ -16,6 +16,18 @@ CHECKS = {
     design_ref="5/C36"),
 }
 
+CHECKS["C14"] = dict(
+    level="proof",
+    text="find.lt/le/gt/ge/eq, previous, next and rank (real source of records.FindOps.* with "
+         "RecordSet._bisect_find/_bisect_index/_find_eq/_at inlined) are proved equal to the "
+         "linear-scan definition for every sorted record set and every probe, under the sort-key "
+         "contract; counter-models are replayed on the real classes.",
+    note="assumed contracts: SortKey ordering (C13 lemma), bisect partition point, table.Record; "
+         "sortedness of the record set is a precondition (established by sorted() in lookup code, "
+         "checked at run time in C13's bounded tier); PREVIOUS/NEXT/RANK wrappers not re-verified.",
+    technique="contract-based deductive verification (own AST->SMT VC generator, z3/cvc5)",
+    design_ref="5/C14")
+
 NOT_APPLICABLE = {
   "C30": "quantifies over interpreter configurations (PYTHONHASHSEED) and relates two separate "
          "processes; no pre/postcondition on a call inside one process can mention the hash seed "
